@@ -644,7 +644,8 @@ class ActionTypeHint(Action):
             val_class = import_object(val_class)
         kwargs = dict(sub_add_kwargs) if sub_add_kwargs else {}
         if skip_args:
-            kwargs.setdefault("skip", set()).add(skip_args)
+            # a new set: the one in sub_add_kwargs belongs to the action and is shared by every later call
+            kwargs["skip"] = set(kwargs.get("skip", ())) | {skip_args}
         if is_subclass_spec(kwargs.get("default")):
             kwargs["default"] = kwargs["default"].get("init_args")
         parser = parent_parser.get()
